@@ -3,7 +3,9 @@ package api
 import (
 	"errors"
 	"fmt"
+	"io"
 	"strings"
+	"text/template"
 
 	"github.com/google/uuid"
 	i_api "github.com/resonatehq/resonate/internal/api"
@@ -199,6 +201,19 @@ func (a *API) SearchSchedules(id string, tags map[string]string, limit int, curs
 func (a *API) ValidateCron(cron string) *Error {
 	if _, err := util.ParseCron(cron); err != nil {
 		return RequestValidationError(errors.New("The field cron must be a valid cron expression."))
+	}
+
+	return nil
+}
+
+func (a *API) ValidatePromiseIdTemplate(promiseId string) *Error {
+	t, err := template.New("promiseId").Parse(promiseId)
+	if err == nil {
+		// expand it once, the way the schedule will when it fires
+		err = t.Execute(io.Discard, map[string]string{"id": "id", "timestamp": "0"})
+	}
+	if err != nil {
+		return RequestValidationError(errors.New("The field promiseId must be a valid template."))
 	}
 
 	return nil
